@@ -27,6 +27,7 @@ type c08case struct {
 	FileOff  uint32 `json:"file_off"` // file interfaces hidden on handles
 	ArgIndex int    `json:"arg"`
 	State    int    `json:"state,omitempty"` // 0: the fixed start tree; >0: a seeded random start tree (thorough)
+	Variant  int    `json:"variant,omitempty"` // argument variant (Chmod: which mode)
 }
 
 var c08bases = []string{"os", "mem", "mount", "mount-os"}
@@ -34,7 +35,10 @@ var c08bases = []string{"os", "mem", "mount", "mount-os"}
 var c08targets = []string{"f", "d", "e", "new", "nope/new", "f/x", ".", "d/x", "d/sub/deeper", "ln"}
 
 // helper -> the Step kinds that invoke it
-func c08step(helper, target string) fsx.Step {
+// c08chmodModes: plain permission bits, and modes carrying the special bits Chmod may set.
+var c08chmodModes = []uint32{0o604, uint32(os.ModeSticky) | 0o755, uint32(os.ModeSetuid) | 0o700, uint32(os.ModeSetuid|os.ModeSticky) | 0o751}
+
+func c08step(helper, target string, variant ...int) fsx.Step {
 	st := fsx.Step{K: helper, P: target, Perm: 0o640, Data: "payload-" + helper, MTime: 1_600_000_000}
 	switch helper {
 	case "OpenFile":
@@ -48,6 +52,9 @@ func c08step(helper, target string) fsx.Step {
 		}
 	case "Chmod":
 		st.Perm = 0o604
+		if len(variant) > 0 {
+			st.Perm = c08chmodModes[variant[0]%len(c08chmodModes)]
+		}
 	}
 	return st
 }
@@ -107,6 +114,11 @@ func c08build() {
 					for _, fo := range fileOffs {
 						for ai := range c08targets {
 							c08list = append(c08list, c08case{Base: base, Helper: h, Off: off, FileOff: fo, ArgIndex: ai})
+							if h == "Chmod" {
+								for v := 1; v < len(c08chmodModes); v++ {
+									c08list = append(c08list, c08case{Base: base, Helper: h, Off: off, FileOff: fo, ArgIndex: ai, Variant: v})
+								}
+							}
 						}
 					}
 				}
@@ -115,6 +127,11 @@ func c08build() {
 				for _, fo := range []uint32{0, capfs.FileBit(c08fileIface[fh])} {
 					for ai := 0; ai < 2; ai++ {
 						c08list = append(c08list, c08case{Base: base, Helper: fh, FileOff: fo, ArgIndex: ai})
+						if fh == "H.Chmod" {
+							for v := 1; v < len(c08chmodModes); v++ {
+								c08list = append(c08list, c08case{Base: base, Helper: fh, FileOff: fo, ArgIndex: ai, Variant: v})
+							}
+						}
 					}
 				}
 			}
@@ -244,12 +261,15 @@ func c08apply(w *c08world, cs c08case, failAt int) (fsx.Result, fsx.Snap, []stri
 		}
 		w.base.Reset(failAt)
 		st := fsx.Step{K: cs.Helper, N: 2, Data: "hw", Off: 1, Perm: 0o600}
+		if cs.Variant > 0 {
+			st.Perm = c08chmodModes[cs.Variant%len(c08chmodModes)]
+		}
 		if cs.Helper == "H.ReadDir" {
 			st.N = -1 // a page of a listing is in unspecified order; compare complete listings
 		}
 		r = fsx.Exec(w.fs, st, &hs, nil)
 	} else {
-		r = fsx.Exec(w.fs, c08step(cs.Helper, c08targets[cs.ArgIndex]), &hs, nil)
+		r = fsx.Exec(w.fs, c08step(cs.Helper, c08targets[cs.ArgIndex], cs.Variant), &hs, nil)
 	}
 	calls := append([]string(nil), w.base.Calls...)
 	hs.CloseAll()
@@ -260,7 +280,7 @@ func c08apply(w *c08world, cs c08case, failAt int) (fsx.Result, fsx.Snap, []stri
 func c08run(env *core.Env, idx int) core.CaseResult {
 	c08build()
 	cs := c08list[idx%len(c08list)]
-	c08withLink = cs.Helper == "Lstat" || cs.Helper == "Stat"
+	c08withLink = cs.Helper == "Lstat" || cs.Helper == "Stat" || cs.Helper == "LstatOrStat"
 	cs.State = idx / len(c08list)
 	var res core.CaseResult
 	res.Key = core.Hash(cs)
@@ -319,6 +339,11 @@ func c08run(env *core.Env, idx int) core.CaseResult {
 	}
 	kd, dd := fsx.Diff(msnap, fsnap)
 	same := mr.Err == fr.Err && mr.Data == fr.Data && kd == ""
+	if cs.Helper == "LstatOrStat" && target == "ln" && mr.Err == fr.Err && kd == "" {
+		// by contract LstatOrStat describes the link itself only where Lstat is offered; without it, it follows the link.
+		// (The link is there for the fault enumeration below: a failing Lstat must not be papered over by Stat.)
+		same = true
+	}
 	notImpl := mr.Err == "ErrNotImplemented"
 	if !same {
 		if notImpl {
